@@ -73,7 +73,7 @@ def extend_ext(ext):
     ext['modules']['np'].sqrt = np_sqrt_mat
     ext['modules']['np'].array = lambda I, a, *x, **k: (a if isinstance(a, ArrRef) and I.A(a).islist else npstubs.np_array(I, a, *x, **k))
 
-def u_fit(center=False, precomputed_kernel=False):
+def u_fit(center=False, precomputed_kernel=False, stale=False):
     def body(I):
         n, m, p, k = I.fresh('n', IntS), I.fresh('m', IntS), I.fresh('p', IntS), I.fresh('k', IntS)
         I.assume(And(n >= 2, m >= 1, p >= 1, k >= 1, k <= n))
@@ -90,6 +90,12 @@ def u_fit(center=False, precomputed_kernel=False):
         cls = I.repo.get(KP)
         kw = dict(mixing=alpha, n_components=k, tol=tol, svd_solver='full', center=center, kernel=('precomputed' if precomputed_kernel else 'rbf'), gamma=I.fresh('gamma', RealS))
         me = I.instantiate(cls, [], kw)
+        if stale:
+            # the same object was fitted earlier with center=True on a training set of another size: its centerer_ is still there (fit with center=False
+            # neither uses nor removes it).  Nothing computed by this fit or by transform/predict/score afterwards may depend on it.
+            kn = I.instantiate(I.repo.get('skmatter.preprocessing._data.KernelNormalizer'), [], {})
+            I.O(kn).attrs['n_features_in_'] = I.fresh('n_train_of_the_earlier_fit', IntS); I.O(kn).attrs['scale_'] = I.fresh('stale_scale', RealS)
+            I.O(me).attrs['centerer_'] = kn
         r = I.call_func(I.find_method(cls, 'fit'), [me, X, Y], {})
         o = I.O(me)
         I.ob('post[C09]:fit-returns-self', BoolVal(isinstance(r, ObjRef) and r.id == me.id), kind='post')
@@ -135,10 +141,10 @@ def u_fit(center=False, precomputed_kernel=False):
             I.ob('post[C05]:score-is-minus-(documented-kernel-loss-plus-relative-regression-loss)', Implies(And(tr(Kvv) != 0, fro2(Yvm) > 0), tz(sc) == -(lk + lr)), kind='post')
     funcs = {KP + '._decompose_full': P.decompose_contract(), KP + '._decompose_truncated': P.decompose_contract(), 'skmatter.utils._pcovr_utils.check_krr_fit': krr_contract()}
     funcs.update(normalizer_contracts())
-    return Unit(f"KernelPCovR[{'precomputed' if precomputed_kernel else 'named-kernel'},center={center}]", body, funcs=funcs,
+    return Unit(f"KernelPCovR[{'precomputed' if precomputed_kernel else 'named-kernel'},center={center}{',refit-after-center=True' if stale else ''}]", body, funcs=funcs,
                 functions=[KP + '.fit', KP + '._fit', KP + '._get_kernel', KP + '.transform', KP + '.predict', KP + '.score'])
 
-UNITS = [lambda: u_fit(False), lambda: u_fit(True), lambda: u_fit(False, True), lambda: u_fit(True, True)]
+UNITS = [lambda: u_fit(False), lambda: u_fit(True), lambda: u_fit(False, True), lambda: u_fit(True, True), lambda: u_fit(False, False, True)]
 RT = True
 TRUSTED = ['matrix layer (see C03)', 'assumed contracts (conformance-tested at run time): pairwise_kernels(X, Y) = KERN(X, Y) depends only on the two sample sets and the kernel parameters, precomputed returns X; spectral decomposition as in C03; KernelNormalizer.fit_transform/transform = CENT (C12), transform needs n_train columns; lstsq = pinv; check_krr_fit returns a fitted kernel ridge (dual_coef_)',
            'linear kernel = sample-space PCovR and mixing=1 = kernel PCA: both reduce to T = K~ U S^-1/2 with the same leading eigenpairs (proved characterisation) + uniqueness up to sign (cited); KRR primal-dual relation assumed; numerical agreement bounded (runtime)']
